@@ -199,6 +199,28 @@ pub fn token_mutants(p: &TokenParts, assertion_supported: bool, seed: u64, full_
             push(mid(&format!("correlated-footer-{}", m.0), 0, m.2), p.payload.to_vec(), m.1, p.assertion.to_vec());
         }
     }
+    // 9. Ed25519 signatures (64-byte signature, no nonce): the scalar half S replaced by S + L and
+    // S + 2L (the same scalar modulo the group order - a verifier that does not insist on the
+    // canonical S accepts it), and R with its unused encodings left alone
+    if p.prefix == 0 && p.suffix == 64 && pl >= 64 {
+        // L = 2^252 + 27742317777372353535851937790883648493, little endian
+        const L: [u8; 32] = [0xed, 0xd3, 0xf5, 0x5c, 0x1a, 0x63, 0x12, 0x58, 0xd6, 0x9c, 0xf7, 0xa2, 0xde, 0xf9, 0xde, 0x14, 0, 0, 0, 0, 0, 0, 0, 0, 0, 0, 0, 0, 0, 0, 0, 0x10];
+        let mut s: [u8; 32] = p.payload[pl - 32..].try_into().unwrap();
+        for k in 1..=2usize {
+            let mut carry = 0u16;
+            for i in 0..32 {
+                let t = s[i] as u16 + L[i] as u16 + carry;
+                s[i] = t as u8;
+                carry = t >> 8;
+            }
+            if carry != 0 {
+                break;
+            }
+            let mut x = p.payload[..pl - 32].to_vec();
+            x.extend_from_slice(&s);
+            push(mid("signature-scalar-plus-group-order", k, 0), x, p.footer.to_vec(), p.assertion.to_vec());
+        }
+    }
     // 7. interior deletions at the field boundaries (the total shrinks, both ends stay)
     for (bi, b) in [p.prefix.min(pl), body_end].iter().enumerate() {
         for k in 1..=3usize {
